@@ -118,7 +118,7 @@ def some_pid(rng, v, name=None):
         return rng.choice(v.all_pids)
     if v.kids and r < 0.85:
         return rng.choice(v.kids)
-    return rng.choice([0, 1, 99, v.next_pid, v.next_pid + 3, "abc", -1])
+    return rng.choice([0, 1, 99, v.next_pid, v.next_pid + 3, "abc", -1, None, 0])
 
 
 def resolve_name(v, n):
